@@ -276,7 +276,10 @@ struct PeerConn {
         if (!m) last_error = "undecodable or badly signed frame";
         return m;
     }
-    void close_now() { if (fd >= 0) { ::shutdown(fd, SHUT_RDWR); ::close(fd); fd = -1; } }
+    // After closing, wait for the reader fiber to notice: a reader that has not run yet would otherwise issue its
+    // first recv on a descriptor number that the next socket() of this process may already have been given.
+    void reap_reader() { if (rx && sk::in_sim()) { auto st = rx; sk::wait_until([st] { return st->closed; }, 5 * kSec); } }
+    void close_now() { if (fd >= 0) { ::shutdown(fd, SHUT_RDWR); ::close(fd); fd = -1; } reap_reader(); }
 };
 
 // identity of a scripted peer
